@@ -32,6 +32,7 @@ class Fn:
         self.name, self.params, self.ret, self.kind = name, params, ret, kind
         self.is_async, self.is_gen, self.deco, self.nested, self.comment = is_async, is_gen, deco, nested, comment
         self.local_import = local_import
+        self.und = False
 
     def render(self, ind, shapes):
         pad = " " * ind
@@ -172,6 +173,18 @@ class Mod:
         for f in (["po_kw", "po_var"] if idx == 0 else [rnd.choice(["po_kw", "po_var", None])]):
             if f:
                 self.fns.append(Fn(f"g_{f}", gen_params(rnd, typing_ok, f), None, comment=r() < 0.3))
+        # parameters without alphanumerics (`_`, `__`: the conventional "ignored" argument) - the hint of generated
+        # TypedDict class names; their traced values hold dicts at tuple positions >= 2 (see und_pool)
+        if idx == 0 or r() < 0.2:
+            fu = Fn("on_reload", [("_", "PosOrKw", None, None), ("__", "PosOrKw", None, None), ("_1", "PosOrKw", None, "None")],
+                    None, comment=r() < 0.3)
+            fu.und = True
+            self.fns.append(fu)
+        # plain `import m` of modules the stub needs `from m import Name` for (datetime.datetime, decimal.Decimal, shapes)
+        self.plain_imports = idx == 4 or r() < 0.15
+        if idx == 4:
+            self.import_shapes_mod = True
+            self.from_shapes = None
         # functions all of whose parameters are positional-only (the trailing `/` of the stub rendering)
         for n in ([1, 2, 3] if idx == 4 else [k for k in (1, 2, 3) if r() < 0.15]):
             self.fns.append(Fn(f"clamp{n}", gen_params(rnd, typing_ok, f"po_all{n}"), None, comment=r() < 0.3))
@@ -204,7 +217,22 @@ class Mod:
                   Fn("pm", gen_params(rnd, typing_ok, f"po_all{rnd.randint(1, 3)}"), None, kind="method"),
                   Fn("ps", gen_params(rnd, typing_ok, f"po_all{rnd.randint(1, 3)}"), None, kind="staticmethod"),
                   Fn("pc", gen_params(rnd, typing_ok, f"po_all{rnd.randint(1, 3)}"), None, kind="classmethod")]
+            # an async method that sorts last among the methods of its class
+            ms.append(Fn("zz_async", gen_params(rnd, typing_ok, "plain"), None, kind="method", is_async=True))
             self.classes.append(("KP", ms, False))
+        if idx == 3 or r() < 0.2:
+            # async methods that sort first / in the middle (another method follows in the stub)
+            ms = [Fn("a_async", gen_params(rnd, typing_ok, "plain"), None, kind="method", is_async=True, comment=r() < 0.3),
+                  Fn("b_sync", gen_params(rnd, typing_ok, "plain"), rnd.choice([None, "int"]), kind="method"),
+                  Fn("c_async", [("x", "PosOrKw", None, None)], None, kind="method", is_async=True),
+                  Fn("d_static", [("y", "PosOrKw", None, "0")], None, kind="staticmethod")]
+            self.classes.append(("KA", ms, r() < 0.5))
+        # defaults with permissive equality (compare equal to everything) after another defaulted parameter
+        self.wild = idx == 2 or r() < 0.2
+        if self.wild:
+            self.fns.append(Fn("wild_any", [("a", "PosOrKw", None, None), ("b", "PosOrKw", None, "None"), ("c", "PosOrKw", None, "ANY")], None))
+            self.fns.append(Fn("wild_own", [("a", "PosOrKw", None, "0"), ("w", "PosOrKw", "object" if r() < 0.5 else None, "WILD"),
+                                            ("k", "KwOnly", None, "WILD")], None, comment=True))
         self.idx = idx
 
     def text(self):
@@ -223,6 +251,9 @@ class Mod:
             L.append("import typing")
         if self.import_shapes_mod:
             L.append(f"import {self.shapes}")
+        if self.plain_imports:
+            L.append("import datetime")
+            L.append("import decimal")
         if self.from_shapes:
             L.append(f"from {self.shapes} import {self.from_shapes}")
         if self.conflict:
@@ -238,9 +269,14 @@ class Mod:
             L.append(f"    from {self.shapes} import Square")
             L.append("except ImportError:")
             L.append("    Square = None")
+        if self.wild:
+            L.append("from unittest.mock import ANY")
         L.append("")
         L.append("# a free-standing comment")
         L.append("LIMIT = 10")
+        if self.wild:
+            L += ["class _Wild:", "    def __eq__(self, other): return True", "    def __ne__(self, other): return False",
+                  "    __hash__ = None", "WILD = _Wild()"]
         if self.global_cls_name_as_var:
             L.append("K9 = None")
         late = [f"from {self.shapes} import Square  # late import", "UNIT = Square()"]
@@ -305,6 +341,8 @@ class Mod:
                 L.append("")
         if self.late_needed == "after_class":
             L += late
+        if self.plain_imports:
+            L.append("STARTED = datetime.date(2020, 1, 1); ONE = decimal.Decimal(1)  # run-time uses of the plain imports")
         L.append("print_ok = os.sep  # module level code at the end")
         return "\n".join(L) + "\n"
 
@@ -348,6 +386,10 @@ def type_pool(mod_obj, shapes_obj, k):
             List[shapes_obj.Circle], Optional[shapes_obj.Square], Dict[str, shapes_obj.Outer.Inner],
             get_type({"a": 1, "b": "x"}, k), get_type([{"n": 1}], k), get_type({"p": {"q": 1.5}}, k),
             Callable[[int], str] if False else float, Any]
+    if hasattr(mod_obj, "STARTED"):
+        import datetime
+        import decimal
+        pool += [datetime.datetime, decimal.Decimal, List[datetime.datetime], Optional[decimal.Decimal]] * 2
     for cname in ("K0", "K1"):
         c = getattr(mod_obj, cname, None)
         if c is not None:
@@ -355,7 +397,16 @@ def type_pool(mod_obj, shapes_obj, k):
     return pool
 
 
-def traces_for(rnd, fobjs, pool, chosen):
+def und_pool(k):
+    """Types of values that hold dicts at tuple positions >= 2 and under the key `_` (identifier keys only: a key that is not
+    an identifier makes today's stub unparseable, reported separately)."""
+    from monkeytype.typing import get_type
+    vals = [({"a": 1}, {"b": "x"}, {"c": 1.5}), {"_": ({"a": 1}, {"b": 2}, {"c": 3})}, [({"n": 1}, {"m": 2}, {"o": "s"})],
+            ({"a": 1}, 2, {"c": {"d": 1}})]
+    return [get_type(v, k) for v in vals]
+
+
+def traces_for(rnd, fobjs, pool, chosen, k=0):
     """One or two CallTraces for each chosen function."""
     from monkeytype.tracing import CallTrace
     traces = []
@@ -369,8 +420,11 @@ def traces_for(rnd, fobjs, pool, chosen):
                 args["self"] = pool[0]
             elif f.kind == "classmethod":
                 args["cls"] = Type[int]
+            up = und_pool(k) if getattr(f, "und", False) else None
             for (n, kd, a, d) in ps:
-                if rnd.random() < 0.9:
+                if up is not None:
+                    args[n] = rnd.choice(up)
+                elif rnd.random() < 0.9:
                     args[n] = rnd.choice(pool)
             ret = None if rnd.random() < 0.15 else rnd.choice(pool)
             yt = rnd.choice(pool) if f.is_gen else None
